@@ -1589,7 +1589,7 @@ Lemma ex_stuck : exists s, Reach 2 1 [[OSPop]; [ONew; OSPush; OSPop; OSPop]] s /
   (exists t th, nth_error (threads s) t = Some th /\ thread_done th = false) /\ all_held s <> [].
 Proof.
   exists (run st step (init 2 1 [[OSPop]; [ONew; OSPush; OSPop; OSPop]]) [0; 1; 1; 1; 1; 1; 0; 1; 1]).
-  split; [eexists; reflexivity|]. split; [|split].
+  split; [exists [0; 1; 1; 1; 1; 1; 0; 1; 1]; reflexivity|]. split; [|split].
   - intros [|[|t]]; vm_compute; reflexivity.
   - exists 1. eexists. vm_compute. split; reflexivity.
   - vm_compute. discriminate.
